@@ -72,6 +72,11 @@ def run_semantic(case, prefix, check_prov=True, check_comp=False, argv=()):
     cmp_ = semcheck.Comparison(deck, t4, P, locator)
     counts = {'points': len(P), 'points_decided': int(cmp_.decided.sum()),
               'points_undecided': int((~cmp_.decided).sum())}
+    if counts['points_decided'] < 0.9 * len(P):
+        from ..runner import HarnessError
+        raise HarnessError('only %d of %d points decided: the model or the '
+                           'generator is at fault, not the converter\n%s'
+                           % (counts['points_decided'], len(P), text))
     tags = sorted(l for l in labels if l in ('lat+rotfill', 'lat+trcl'))
     mism = cmp_.basic_mismatches()
     if mism:
